@@ -107,6 +107,27 @@ def rule_esc_string(ctx, f):
                     escaped.discard(v)
                     ctx.bad("C04-ESC-str", "PdfString::serialize#escape-of-%d" % v, "byte %d is written as %s%s, which the string reader does not turn back into %d "
                             "(a backslash before a raw CR is a line continuation and vanishes)" % (v, txt, " + the raw byte" if raw_follows else "", v), t["span"])
+    # the same question asked of the paths (the escape may be chosen by `if b == b'\r' { .. } else { .. }` instead of a match arm): for every
+    # special byte, on every path of one turn of the loop that the byte can take, what is written is an escape the reader undoes
+    def _subj(e):
+        e0 = e
+        while isinstance(e0, tuple) and e0[0] in ("deref", "ref", "cast", "field", "downcast"):
+            e0 = e0[1]
+        return isinstance(e0, tuple) and e0[0] == "call" and last_seg(e0[1]) == "next"
+    by_byte = {}
+    try:
+        for S, path in classify(wb, _subj, record_cycles=True, stops=wa):
+            if S == FULL:
+                continue
+            blocks = [x for x in path if x >= 0]
+            raw = bool(blocks) and blocks[-1] in wa
+            txt = [x for x in consts_written(wb, blocks) if x.startswith("\\")]
+            for v in special & set(S):
+                okp = any((x == "\\" and raw and esc_tab.get(v) == v) or (len(x) == 2 and not raw and esc_tab.get(ord(x[1])) == v) for x in txt)
+                by_byte.setdefault(v, []).append(okp)
+    except RuntimeError:
+        by_byte = {}
+    escaped |= {v for v, oks in by_byte.items() if oks and all(oks)}
     miss = special - escaped
     ctx.check(not miss, "C04-ESC-str", "PdfString::serialize#escapes",
               "bytes %s are special to the string reader but written raw in a literal string (read back differently)" % fmt_set(miss), wb["span"],
@@ -176,6 +197,24 @@ def rule_esc_name(ctx, f):
     consts = [F.const_str(a) for bi, t in F.calls(wb) for a in t["args"] if F.const_str(a) is not None]
     tmpl = [F.const_bytes(o) for i, j, s in F.stmts(wb) if s[0] == "assign" and s[2][0] == "use" for o in [s[2][1]] if F.const_bytes(o)]
     ctx.check(any("#" in x for x in consts + tmpl), "C04-ESC-name", "serialize_name#mechanism", "names are not escaped with '#'", wb["span"], detail="escape mechanism #xx")
+    # ... followed by exactly two hexadecimal digits (the reader takes two)
+    import re as _re
+    a2 = adj.get_adj(f, adj.OBJECT_KEYWORDS)
+    fn2 = a2.ast.fn_for_body(wb)
+    if fn2 is None:
+        ctx.lost("C04-ESC-name", "syntax tree of serialize_name")
+    else:
+        def _walk2(n):
+            if isinstance(n, dict):
+                yield n
+                for v2 in n.values():
+                    yield from _walk2(v2)
+            elif isinstance(n, list):
+                for x2 in n:
+                    yield from _walk2(x2)
+        hexes2 = [n["fmt"] for n in _walk2(fn2["body"]) if n.get("k") == "macro" and n.get("fmt") and _re.search(r"\{[^}]*[xX]\}", n["fmt"])]
+        ctx.check(bool(hexes2) and all(_re.search(r"#\{:02[xX]\}", x) for x in hexes2), "C04-ESC-name", "serialize_name#two-digits", "an escaped byte of a name is not written as `#` and "
+                  "exactly two hex digits (formats: %s): a byte below 0x10 comes out as `#9`, which the reader cannot decode" % hexes2, wb["span"], detail="#{:02x}")
     db = f.body("primitive::Dictionary::serialize")
     if db is None:
         ctx.lost("C04-ESC-name", "primitive::Dictionary::serialize")
